@@ -38,6 +38,8 @@ func init() {
 				Edits: []Edit{{File: "util/bytes.go", Old: "(?:;[a-zA-Z\\\\d]*)*)?\" +", New: "(?:;[^\\u0007]*)*)?\" +"}}},
 			{ID: "C10-retry-bound-3", Desc: "password retry bound 3", Rule: "C10/at-most-twice",
 				Edits: []Edit{{File: "channel/auth.go", Old: "\tpasswordSeenMax   = 2", New: "\tpasswordSeenMax   = 3"}}},
+			{ID: "C10-telnet-bytes-shadowed", Desc: "the telnet login's bytes land in a variable of their own (b, err := ...) and are never requeued", Rule: "C10/cleanup-requeue",
+				Edits: []Edit{{File: "channel/channel.go", Old: "\t\tb, err = c.AuthenticateTelnet([]byte(authData.User), []byte(authData.Password))\n\t\tif err != nil {\n\t\t\treturn err\n\t\t}\n", New: "\t\tb, err := c.AuthenticateTelnet([]byte(authData.User), []byte(authData.Password))\n\t\tif err != nil {\n\t\t\treturn err\n\t\t}\n\n\t\tc.l.Debugf(\"login consumed %d bytes\", len(b))\n"}}},
 			{ID: "C10-password-prompt-wins", Desc: "telnet login skips the user-name answer when the password pattern matches the same text", Rule: "C10/one-answer-per-pass",
 				Edits: []Edit{{File: "channel/auth.go", Old: "\t\tif c.UsernamePattern.Match(b) {\n\t\t\tb = []byte{}\n\n\t\t\tuCount++", New: "\t\tif c.UsernamePattern.Match(b) && !c.PasswordPattern.Match(b) {\n\t\t\tb = []byte{}\n\n\t\t\tuCount++"}}},
 			{ID: "C10-username-gets-password", Desc: "telnet answers the user-name prompt with the password", Rule: "C10/credential-prompt",
@@ -553,6 +555,36 @@ func checkOpenCleanup(c *Ctx, r *Report) {
 			return isLen && isC && k == 0 && ((bo.Op == token.GTR && t) || (bo.Op == token.NEQ && t) || (bo.Op == token.EQL && !t) || (bo.Op == token.LEQ && !t))
 		})
 		okRq = fromAuth && guardOK
+		// what is requeued is what *every* login dialogue of Open consumed: the bytes result of each Authenticate* call
+		// made here is among the values that merge into the argument (a result that lands in a variable of its own --
+		// `b, err := ...` inside one case -- never reaches the requeue)
+		leaves := map[ssa.Value]bool{}
+		var walkPhi func(v ssa.Value, d int)
+		walkPhi = func(v ssa.Value, d int) {
+			if d > 6 || leaves[v] {
+				return
+			}
+			leaves[v] = true
+			if ph, isPhi := v.(*ssa.Phi); isPhi {
+				for _, e := range ph.Edges {
+					walkPhi(e, d+1)
+				}
+			}
+		}
+		walkPhi(arg, 0)
+		for _, ci := range callInstrs(open) {
+			ac, isCall := ci.(*ssa.Call)
+			if !isCall {
+				continue
+			}
+			sc := ac.Call.StaticCallee()
+			if sc == nil || !strings.HasPrefix(sc.Name(), "Authenticate") || sc.Signature.Results().Len() != 2 {
+				continue
+			}
+			if res := resultOf(ac, 0); res == nil || !leaves[res] {
+				extraGuard = fmt.Sprintf("the bytes %s hands back at %s never reach the requeue at %s: what that login consumed (banner, first prompt) is not put back for the first operation", shortFn(sc), c.Pos(ac.Pos()), c.Pos(call.Pos()))
+			}
+		}
 		// ... and by nothing else that depends on the kind of login: whatever was consumed, by either dialogue, goes back
 		for _, ec := range edgeConds(call.Block()) {
 			v, _ := unwrapNot(ec.Cond)
